@@ -18,7 +18,9 @@ PID = "C07"
 PROPS_MODULE = "NumbersModel.Props.C07"
 THEOREMS = [f"NumbersModel.Props.C07.{t}" for t in (
     "open_store_bounds", "ids_unique_and_below_hwm", "new_file_listed", "new_files_listed_history", "references_closed",
-    "references_closed_except", "targetsExist_prefix", "header_refs_exact", "created_header_exact", "tiles_partition_rows",
+    "references_closed_except", "targetsExist_prefix", "header_refs_exact", "created_header_exact",
+    "create_total", "created_object_filed", "created_goes_to_first_iwa_member", "iwaPaths_mem",
+    "stored_objects_stay_filed_create", "stored_objects_stay_filed", "header_refs_exact_history", "tiles_partition_rows",
     "tiles_wellformed", "records_in_bounds_aligned_disjoint", "record_positions", "row_info_offsets_roundtrip")]
 PARTIAL = {
     "saved_file_opens_again": "validated, not proved (zipfile, snappy, protobuf and the whole reader are outside the model)",
@@ -26,16 +28,22 @@ PARTIAL = {
                                   "is checked on every recorded real session (oracle signature reference-to-missing-object), not derived from model.py: the "
                                   "creator sites are not modelled one by one. It fails exactly for identifier 0 (known finding null-reference-identifier-zero; "
                                   "references_closed_except with the exemption of 0 covers those histories)",
-    "stored_objects_stay_filed": "header_refs_exact assumes wellFiled (every stored object's archive is in the file its file-name map names). It is not an invariant of "
-                                 "arbitrary histories: create_object_from_dict stores a new file under pattern.format(id)+'.iwa' even when a member of that name exists "
-                                 "(example in Props/C07.lean); the driver evaluates wellFiled before and after every recorded history and the oracle checks it on the real store",
+    "new_member_names_free": "header_refs_exact assumes wellFiled (every stored object's archive is in the file its file-name map names). Now proved kept: "
+                             "stored_objects_stay_filed (every history of creations, component entries, reference writes, updates and blob additions keeps FiledInv = wellFiled + "
+                             "distinct member names + identifiers below the mark), stored_objects_stay_filed_create, created_object_filed (since "
+                             "fixes/C19-new-objects-go-to-iwa-members.patch a new object never goes to a blob; create_total: no AttributeError whatever the file store holds) - "
+                             "under the side condition namesFree: a creation that makes a NEW member does not take an existing member's name (create_object_from_dict stores "
+                             "under pattern.format(id)+'.iwa' without looking; counter-example in Props/C07.lean, where namesFree is false). That the histories the library "
+                             "performs satisfy namesFree is observed, not derived: oracle signature created-file-replaces-existing-member on every recorded real session, and the "
+                             "driver evaluates wellFiled before and after every recorded history",
     "header_exact_without_proviso": "header_refs_exact has the proviso the code has (`if len(references) > 0`): an object whose message lost all references keeps the header "
                                     "list of an earlier moment (seen on real sessions: HeaderStorageBucket of issue-66-collab / issue-77, counted in the evidence); the "
                                     "entries still resolve, so closure is not affected",
 }
 RULE = ("correspondence: _max_id of freshly opened fixtures and math.ceil(m/1e6)*1e6 on boundary values; seeded sequences of "
-        "create_object_from_dict / add_component_metadata on a real ObjectStore + _NumbersModel stub (file choice by substring, append, "
-        "new files, failures after the identifier is consumed); tiles of saved tables with 0..1100 rows; recalculate_row_info on seeded "
+        "create_object_from_dict / add_component_metadata on a real ObjectStore + _NumbersModel stub (file choice by substring among the IWA members only - "
+        "the file stores carry blobs named Data/..., preview.jpg, Metadata/Properties.plist, Metadata/DocumentIdentifier in every position and the patterns "
+        "include 'Data', 'preview', 'Document', '' -, append, new files, failures after the identifier is consumed); tiles of saved tables with 0..1100 rows; recalculate_row_info on seeded "
         "rows (incl. a row too long for 16-bit offsets); object graph: every edit+save session below is recorded in-process (harness/objgraph.py wraps "
         "create_object_from_dict, add_component_metadata, add_component_reference, update_object_file_store, set_reference and the reference-writing methods of "
         "model.py; reference writes are observed as differences of each object's reference list between observation points) and the recorded history is replayed "
@@ -63,7 +71,13 @@ MANIFEST = {
             "references_closed_except: the same with an exempted identifier set - the recorded add_table history violates TargetsExist exactly at the write of "
             "identifier 0, known finding null-reference-identifier-zero, shown by an example); header_refs_exact (after update_object_file_store every stored "
             "object's written message holds the live references and its header lists exactly them, with the code's proviso for a message without references) + "
-            "created_header_exact; new_file_listed + new_files_listed_history (a new archive file is listed with the locator that names it and the entry survives "
+            "created_header_exact; create_total (create_object_from_dict without append returns the next identifier for EVERY file store - blobs of any name in any "
+            "position; with append the only failure is KeyError when no IWA member matches: the AttributeError of the pinned code on a non-IWA member is gone, "
+            "fixes/C19-new-objects-go-to-iwa-members.patch, pinned candidates kept as pathsPinned with a counter-example), created_goes_to_first_iwa_member + "
+            "iwaPaths_mem (the new archive is appended to the first IWA member, in file-store order, whose name contains the pattern), created_object_filed (the "
+            "object returned is filed in an IWA member that lists it), stored_objects_stay_filed (+ _create, header_refs_exact_history: wellFiled - the hypothesis of "
+            "header_refs_exact - is an invariant of every history in which no new member takes an existing member's name, so every save of such a history writes exact "
+            "headers); new_file_listed + new_files_listed_history (a new archive file is listed with the locator that names it and the entry survives "
             "every later operation); tile geometry: tiles_partition_rows + tiles_wellformed; row-infos: records_in_bounds_aligned_disjoint + record_positions + "
             "row_info_offsets_roundtrip. Tie to the code: the operation history of every real edit+save session (seeded histories, add_table / add_sheet across tile "
             "boundaries, styles, custom formats, captions, merges, borders, plain re-saves, second saves, reopened files) is recorded in-process and replayed through "
@@ -107,7 +121,7 @@ def check_rounding(ctx: Ctx):
 
 NAMES = ["Index/Document.iwa", "Index/DocumentStylesheet.iwa", "Index/CalculationEngine.iwa", "Index/Metadata.iwa",
          "Index/Tables/DataList.iwa", "Index/Tables/DataList-874423.iwa", "Index/Tables/Tile.iwa", "Data/image-12.jpg", "preview.jpg",
-         "Metadata/Properties.plist", "Index/Tables/HeaderStorageBucket.iwa", "Index/CalculationEngine-77.iwa"]
+         "Metadata/Properties.plist", "Metadata/DocumentIdentifier", "Index/Tables/HeaderStorageBucket.iwa", "Index/CalculationEngine-77.iwa"]
 PATTERNS = ["CalculationEngine", "Document", "DocumentStylesheet", "Index/Tables/Tile-{}", "Index/Tables/DataList-{}",
             "Index/Tables/HeaderStorageBucket-{}", "Index/Tables/DataList-874423", "Index/Tables/DataList-5", "preview", "Tables/DataList",
             "Nope", "Index/Tables/TableDataList-{}", "Data", ""]
@@ -171,12 +185,29 @@ def check_creation(ctx: Ctx):
             if r < 0.45:
                 pat, app = rng.choice(PATTERNS), rng.random() < 0.2
                 ops.append(f"C {enc_text(pat)} {int(app)}")
+                # the property on the real store, independent of the model: the new archive goes to the first member (file-store order)
+                # that is an IWA archive and whose name contains the pattern, else to a new member; the only failure is KeyError
+                # (append, no such member) - never because of what a member that is not an IWA archive is called
+                cands = [k for k, v in st._file_store.items() if isinstance(v, IWAFile) and pat in k]
+                members0 = list(st._file_store)
+                here = {"kind": "creation", "members": [[k, isinstance(v, IWAFile)] for k, v in st._file_store.items()],
+                        "pattern": pat, "append": app}
                 try:
                     nid, _ = st.create_object_from_dict(pat, {"bucketHashFunction": 1}, TST.HeaderStorageBucket, app)
                     outs.append(f"ok {nid}")
                     created.append(nid)
+                    want = cands[0] if cands else pat.format(nid) + ".iwa"
+                    holder = [k for k, v in st._file_store.items()
+                              if isinstance(v, IWAFile) and any(a.header.identifier == nid for a in v.chunks[0].archives)]
+                    if holder != [want] or st._object_to_filename_map.get(nid) != want or \
+                            (cands and st._file_store[want].chunks[0].archives[-1].header.identifier != nid):
+                        ctx.violation("created-object-not-in-first-iwa-member", f"create_object_from_dict({pat!r}) on members {members0}: object {nid} filed in "
+                                      f"{holder} (map says {st._object_to_filename_map.get(nid)!r}), expected {want!r}", here)
                 except Exception as e:  # noqa: BLE001
                     outs.append("err " + exc_name(e))
+                    if not (isinstance(e, KeyError) and app and not cands):
+                        ctx.violation("creation-raises-on-non-iwa-member" if isinstance(e, AttributeError) else "creation-raises",
+                                      f"create_object_from_dict({pat!r}, append={app}) on members {members0} raised {exc_name(e)}: {e}", here)
             elif r < 0.7:
                 # component identifiers stay pairwise distinct, as in every PackageMetadata (the model's stated assumption)
                 used = {c.identifier for c in meta.components}
@@ -684,4 +715,28 @@ def replay(data):
             return {"log": log, **out}
         finally:
             shutil.rmtree(d, ignore_errors=True)
+    if i.get("kind") == "creation" and "members" in i:
+        # a file store with these members (name, is-IWA) in this order; one create_object_from_dict call
+        from numbers_parser.containers import ObjectStore
+        from numbers_parser.generated import TSPArchiveMessages_pb2 as TSPA
+        from numbers_parser.generated import TSTArchives_pb2 as TST
+        from numbers_parser.iwafile import IWACompressedChunk, IWAFile, create_iwa_segment
+        st = ObjectStore.__new__(ObjectStore)
+        st._objects, st._file_store, st._object_to_filename_map, st._dirty = {2: TSPA.PackageMetadata(last_object_identifier=1)}, {}, {}, {}
+        for k, (name, is_iwa) in enumerate(i["members"]):
+            if is_iwa:
+                seg = create_iwa_segment(10 + k, TST.HeaderStorageBucket, {"bucketHashFunction": 1})
+                st._objects[10 + k] = seg.objects[0]
+                st._object_to_filename_map[10 + k] = name
+                st._file_store[name] = IWAFile([IWACompressedChunk([seg])])
+            else:
+                st._file_store[name] = b"blob"
+        st._max_id = 1000000
+        try:
+            nid, _ = st.create_object_from_dict(i["pattern"], {"bucketHashFunction": 1}, TST.HeaderStorageBucket, i.get("append", False))
+            return {"result": f"ok {nid}", "filed_in": st._object_to_filename_map.get(nid),
+                    "members": {k: ([a.header.identifier for a in v.chunks[0].archives] if isinstance(v, IWAFile) else "blob")
+                                for k, v in st._file_store.items()}}
+        except Exception as e:  # noqa: BLE001
+            return {"result": "err " + exc_name(e), "message": str(e)}
     return {"input": i, "note": "replay by re-running the protocol line through the implementation adapter"}
